@@ -214,4 +214,62 @@ theorem checkProg_iff {A : Annot} {P : Prog} {Φ : Sig} {Ψg : List Ty} {τ : Ty
 theorem WellTypedA.toWellTyped {A : Annot} {P : Prog} {Ψg : List Ty} {τ : Ty} (h : WellTypedA A Ψg τ P) :
     WellTyped (P.fns.map (sigOf A)) Ψg τ P := (checkProg_sound (checkProg_iff.2 ⟨rfl, h⟩)).1
 
+/-! ### lambda-free programs with distinct function names: complete w.r.t. the declarative `WellTyped` -/
+
+def noLamProg (P : Prog) : Bool :=
+  P.globals.all (fun g => noLam g.2) && P.fns.all (fun d => noLam d.body) && noLam P.dsp.body
+
+theorem GlobalsOK.toA (B : Binders) : ∀ {Γ : Ctx} {gs : List (String × Expr)} {τs : List Ty},
+    GlobalsOK Γ gs τs → (gs.all fun g => noLam g.2) = true → GlobalsOKA B Γ gs τs
+  | _, _, _, .nil, _ => .nil
+  | _, _, _, .cons h hfo hgs, hl => by
+    simp only [List.all_cons, Bool.and_eq_true] at hl
+    exact .cons (h.toA B hl.1) hfo (hgs.toA B hl.2)
+
+theorem FnOK.toA {Φ : Sig} (B : Binders) {Γg : Ctx} {d : FnDecl} {τs : List Ty} {τ : Ty}
+    (h : FnOK Φ Γg d τs τ) (hl : noLam d.body = true) : FnOKA Φ B Γg d τs τ :=
+  ⟨h.arity, h.body.toA B hl, h.selfRet, h.agree⟩
+
+/-- with distinct names, every declaration is the one its name finds, in the declarations and in the signatures -/
+theorem lookup_sigs_of_mem (A : Annot) : ∀ (fns : List FnDecl), (fns.map (·.name)).Nodup → ∀ d ∈ fns,
+    (fns.map (sigOf A)).lookup d.name = some (sigOf A d).2 ∧ findFn fns d.name = some d
+  | [], _, d, hd => by simp at hd
+  | d₀ :: fns, hn, d, hd => by
+    simp only [List.map_cons, List.nodup_cons] at hn
+    simp only [List.mem_cons] at hd
+    rcases hd with rfl | hd
+    · constructor
+      · simp [sigOf]
+      · simp [findFn]
+    · have hne : d.name ≠ d₀.name := by
+        intro he
+        exact hn.1 (he ▸ List.mem_map_of_mem hd)
+      obtain ⟨h1, h2⟩ := lookup_sigs_of_mem A fns hn.2 d hd
+      constructor
+      · have : (d.name == d₀.name) = false := by simpa using hne
+        simp only [sigOf] at h1
+        simp only [List.map_cons, sigOf, List.lookup_cons, this]
+        exact h1
+      · have : (d₀.name == d.name) = false := by simpa using fun h => hne h.symm
+        simp only [findFn, List.find?_cons, this] at h2 ⊢
+        exact h2
+
+/-- **Completeness w.r.t. the declarative system for lambda-free programs**: if the program is `WellTyped` with the
+signatures the annotations name, has no `lam`, distinct function names and a first-order output type, the checker accepts it
+with exactly that typing. -/
+theorem checkProg_complete_noLam {A : Annot} {P : Prog} {Ψg : List Ty} {τ : Ty}
+    (h : WellTyped (P.fns.map (sigOf A)) Ψg τ P) (hl : noLamProg P = true)
+    (hn : (P.fns.map (·.name)).Nodup) (hfo : τ.fo = true) :
+    checkProg A P = some (P.fns.map (sigOf A), Ψg, τ) := by
+  simp only [noLamProg, Bool.and_eq_true] at hl
+  obtain ⟨⟨hlg, hlf⟩, hld⟩ := hl
+  refine checkProg_iff.2 ⟨rfl, h.globals.toA _ hlg, ?_, h.dsp.toA _ hld, hfo⟩
+  intro d hd
+  obtain ⟨hlk, hfind⟩ := lookup_sigs_of_mem A P.fns hn d hd
+  obtain ⟨d', hf', hok⟩ := h.fns d.name _ _ hlk
+  rw [hfind] at hf'
+  cases hf'
+  rw [List.all_eq_true] at hlf
+  exact hok.toA _ (hlf d hd)
+
 end Mimium.Core
